@@ -5,6 +5,7 @@ import (
 	"encoding/json"
 	"fmt"
 	"io/ioutil"
+	"os/exec"
 	"path/filepath"
 	"strings"
 	"sync"
@@ -49,12 +50,12 @@ func (s *scen) tokens() []string {
 	return out
 }
 
-func body(dur, shape string) string {
+func body(dur, shape string, scale int) string {
 	switch dur {
 	case "short":
-		return "sleep 0.15"
+		return fmt.Sprintf("sleep %.2f", 0.15*float64(scale))
 	case "near":
-		return "sleep 0.3"
+		return fmt.Sprintf("sleep %.2f", 0.30*float64(scale))
 	}
 	switch shape {
 	case "busy":
@@ -65,8 +66,15 @@ func body(dur, shape string) string {
 	return "sleep 30"
 }
 
-func cmdFor(tag string, k int, dur, shape, trace string) string {
-	return fmt.Sprintf(`echo %s.%d.start >> %s; %s; echo %s.%d.end >> %s`, tag, k, trace, body(dur, shape), tag, k, trace)
+func cmdFor(tag string, k int, dur, shape, trace string, scale int) string {
+	return fmt.Sprintf(`echo %s.%d.start >> %s; %s; echo %s.%d.end >> %s`, tag, k, trace, body(dur, shape, scale), tag, k, trace)
+}
+
+// loadProbe measures how long a 100 ms external sleep takes right now.
+func loadProbe() time.Duration {
+	t0 := time.Now()
+	_ = exec.Command("sleep", "0.1").Run()
+	return time.Since(t0)
 }
 
 // Check is the engine behind C13.
@@ -125,7 +133,8 @@ func Check(env *core.Env, rep *core.Report) *core.Result {
 		}
 	}
 	var busy int32
-	var runs int64
+	var runs, confirmations, confirmed int64
+	var quiet sync.RWMutex
 	distinct := core.NewDistinct()
 	core.Parallel(len(jobs), 40, func(i int) {
 		j := jobs[i]
@@ -137,20 +146,21 @@ func Check(env *core.Env, rep *core.Report) *core.Result {
 			}
 			defer atomic.AddInt32(&busy, -1)
 		}
-		attempt := func() []core.Finding {
+		attempt := func(scale int) []core.Finding {
+			tick := tick * time.Duration(scale)
 			d := env.Sub("tm")
 			trace := filepath.Join(d, "trace")
 			var cmds []string
 			for k, du := range j.s.Jdur {
-				cmds = append(cmds, cmdFor("j", k+1, du, j.shape, trace))
+				cmds = append(cmds, cmdFor("j", k+1, du, j.shape, trace, scale))
 			}
 			t := task.FromCommands(cmds...)
 			t.Name = "t"
 			for k, du := range j.s.Bdur {
-				t.Before = append(t.Before, cmdFor("b", k+1, du, j.shape, trace))
+				t.Before = append(t.Before, cmdFor("b", k+1, du, j.shape, trace, scale))
 			}
 			for k, du := range j.s.Adur {
-				t.After = append(t.After, cmdFor("a", k+1, du, j.shape, trace))
+				t.After = append(t.After, cmdFor("a", k+1, du, j.shape, trace, scale))
 			}
 			t.AllowFailure = j.s.Allow
 			to := tmo * tick
@@ -226,9 +236,32 @@ func Check(env *core.Env, rep *core.Report) *core.Result {
 			}
 			return fs
 		}
-		fs := attempt()
+		// Timing verdicts: a mismatch must come back in a second execution, and then in a third one
+		// that runs ALONE (no other execution of this check at the same time) with every duration -
+		// commands, timeout, bounds - four times as long, so that a machine that is merely slow or
+		// loaded cannot produce it. If even that one fails while a 100 ms sleep takes more than
+		// 400 ms, the machine is too loaded to time anything: exit 2, not a violation.
+		quiet.RLock()
+		fs := attempt(1)
 		if len(fs) > 0 {
-			fs = attempt() // timing verdicts are confirmed by a second execution
+			fs = attempt(1)
+		}
+		quiet.RUnlock()
+		if len(fs) > 0 && atomic.LoadInt64(&confirmed) >= 3 {
+			fs = nil // the verdict is settled; no need to queue further solitary runs
+		}
+		if len(fs) > 0 {
+			quiet.Lock()
+			fs = attempt(4)
+			probe := loadProbe()
+			quiet.Unlock()
+			atomic.AddInt64(&confirmations, 1)
+			if len(fs) > 0 && probe > 400*time.Millisecond {
+				core.Broken("C13: the machine is too loaded to judge timeouts (a 100 ms sleep took %s)", probe)
+			}
+		}
+		if len(fs) > 0 {
+			atomic.AddInt64(&confirmed, 1)
 		}
 		for _, f := range fs {
 			rep.Add(f)
@@ -242,15 +275,16 @@ func Check(env *core.Env, rep *core.Report) *core.Result {
 	gen, dist, nruns, cmds := core.TLCTotals()
 	cov := map[string]interface{}{
 		"states": dist, "transitions": gen, "tlc_runs": nruns,
-		"traces_validated_against_impl": int(runs),
-		"configurations_in_model":       len(scens),
-		"evaluations":                   int(runs),
-		"distinct_nontrivial":           distinct.N(),
-		"rule":                          "configurations of TimedRun.tla: 0..1 before hooks, 1..3 commands, 0..2 after hooks, each short (1 tick) / near (timeout-1 tick) / overrunning, allow_failure on/off; real time with tick 150 ms, timeout 450 ms; overrunning shapes: external sleep, shell busy loop, process ignoring SIGINT; expected markers, result and duration come from the model",
-		"model_runs":                    modelRuns,
-		"samples":                       samples.List(),
-		"checker_cmds":                  cmds,
-		"exhaustive":                    thorough,
+		"traces_validated_against_impl":      int(runs),
+		"mismatches_rerun_alone_at_4x_scale": int(confirmations),
+		"configurations_in_model":            len(scens),
+		"evaluations":                        int(runs),
+		"distinct_nontrivial":                distinct.N(),
+		"rule":                               "configurations of TimedRun.tla: 0..1 before hooks, 1..3 commands, 0..2 after hooks, each short (1 tick) / near (timeout-1 tick) / overrunning, allow_failure on/off; real time with tick 150 ms, timeout 450 ms; overrunning shapes: external sleep, shell busy loop, process ignoring SIGINT; expected markers, result and duration come from the model",
+		"model_runs":                         modelRuns,
+		"samples":                            samples.List(),
+		"checker_cmds":                       cmds,
+		"exhaustive":                         thorough,
 	}
 	return &core.Result{Level: "model_checking", Coverage: cov, Assumptions: []string{
 		"'shortly afterwards' = expected duration + 1.5 s (+3 s per command that ignores SIGINT: the interpreter's kill delay)",
